@@ -58,7 +58,7 @@ def gen_script(rng, kinds=None):
         steps.append(("send", "setoption name Hash value %d" % rng.choice([1, 4, 16])))
     steps.append(("ready",))
     nfrag = rng.randint(2, 4)
-    allk = kinds or ["gostop", "godepth", "ponderhit", "ponderstop", "backtoback", "threads", "gogo", "movetime"]
+    allk = kinds or ["gostop", "godepth", "ponderhit", "ponderstop", "backtoback", "threads", "gogo", "movetime", "setopt"]
     quit_in_search = rng.random() < 0.3
     for i in range(nfrag):
         k = rng.choice(allk)
@@ -96,6 +96,15 @@ def gen_script(rng, kinds=None):
             steps.append(("sleep", rng.choice([0.0, 0.003, 0.03])))
             steps.append(("send", "go depth %d" % rng.randint(1, 4)))
             steps.append(("best", 2, 30))
+        elif k == "setopt":
+            # option change while idle, then isready / go at once: the engine must be ready (options applied) first
+            for _ in range(rng.randint(1, 2)):
+                steps.append(("send", rng.choice(["setoption name Hash value %d" % rng.choice([1, 4, 16, 32]),
+                                                  "setoption name MultiPV value %d" % rng.choice([1, 2]), "ucinewgame"])))
+            if rng.random() < 0.5:
+                steps.append(("ready",))
+            steps.append(("send", rng.choice(["go depth %d" % rng.randint(1, 4), "go movetime 10"])))
+            steps.append(("best", 1, 30))
         elif k == "threads":
             steps.append(("send", "go depth %d" % rng.randint(1, 5)))
             steps.append(("best", 1, 30))
@@ -310,6 +319,8 @@ def report(ctx, jobs, results, hooked):
                 ctx.count("trace_reconfigs", int(inf.get("reconfigs", 0)))
                 ctx.count("trace_searches", int(inf.get("searches", 0)))
                 ctx.count("trace_maxN_%s" % inf.get("maxN", "?"))
+                if inf.get("options") == "true":
+                    ctx.count("traces_with_option_handshake_replayed")
                 if int(inf.get("searches", -1)) != r["gos"] or int(inf.get("bestmoves", -1)) != r["gos"]:
                     nviol += 1
                     ctx.violation("C10 trace: model counts %s searches / %s bestmoves for %d go commands" %
@@ -331,7 +342,7 @@ def run(ctx):
     hooked = hook_present()
     ctx.log("tree %s: hook H5 %s" % (REPO, "present" if hooked else "absent (outcome contract only)"))
     ctx.rule = ("UCI sessions = 2..4 fragments drawn from {go infinite/stop, go depth N, go movetime, go ponder/ponderhit, "
-                "go ponder/stop, back-to-back go, go during go, setoption Threads between searches} + quit (30% during a search), "
+                "go ponder/stop, back-to-back go, go during go, setoption Threads between searches, setoption Hash/MultiPV/Clear Hash then isready|go at once} + quit (30% during a search), "
                 "Threads 1..8, 8 positions (incl. mate-in-1 / single-move positions), one H5 schedule-perturbation seed per session; "
                 "non-trivial = session mixes >=2 fragment kinds or quits during a search; distinct by (fragments, threads, sched seed)")
     ctx.trusted_base = ["Coq 8.16.1 kernel", "extraction (ExtrOcamlBasic) + OCaml 4.13 + drivers/workers_driver.ml",
